@@ -123,7 +123,7 @@ Proof.
 move=> Hc; elim: vs ys => [|v vs IH] [|y ys] //= w.
 move: (IH ys w); rewrite /Sys.canon /=.
 case E: (PeanoNat.Nat.eqb w v) => //= _.
-Show. by rewrite /Sys.as_raw /= Hdn.
+by move: E; rewrite nat_eqbE => /eqP ->; rewrite /Sys.as_raw /= Hdn.
 Qed.
 
 Lemma chain_gen (order : seq comp) (e0 e0' e1 : env) :
